@@ -292,6 +292,20 @@ theorem sig_meets_spec (f : Fields) (hwf : f.WF) (a : Area) (hpa : parseArea f.t
             · intro hmul; exact hw ⟨h1, Or.inr hmul⟩
 
 
+/-- Inside the known-finding classes too: version, ittl, olen and pclass of the signature the model
+builds are always the ones the headers define (they do not depend on the option walk). -/
+theorem header_fields_unconditional (f : Fields) (hwf : f.WF) :
+    (modelSig f).version = (if f.ip.v6 then .v6 else .v4) ∧
+    TtlOk f.ip.ttl (modelSig f).ittl ∧
+    (modelSig f).olen = (if f.ip.v6 then 0 else (f.ip.ihl - 5) * 4) ∧
+    (modelSig f).pclass = (if f.tcp.payLen = 0 then .zero else .nonZero) := by
+  unfold Fields.WF at hwf
+  obtain ⟨httl, hihl, _⟩ := hwf
+  refine ⟨by simp [modelSig, ver], calculateTtl_spec f.ip.ttl httl, ?_, by simp [modelSig]⟩
+  simp only [modelSig, ipv6OptLen, ipv4OptLen, TcpConst.ihlGuard, TcpConst.ihlSub, TcpConst.ihlMul]
+  cases f.ip.v6 <;> simp
+  split <;> omega
+
 /-! ### the analysis outcome -/
 
 /-- Full statement (false for the current code, see the witnesses below). -/
